@@ -8,7 +8,7 @@ func init() {
 		ID:        "C21",
 		Technique: "static analysis: dominator guard facts and CFG reachability over anyApplicationPolicy.Validate (go/ssa)",
 		Explanation: "Over all CFG paths of anyApplicationPolicy.Validate: a nil (admit) return is dominated by allowList.Contains=true, a positive-cache hit, or IsRecognized=true with a nil error; " +
-			"negativeResultCache.Add is reached only after the application loop ran to exhaustion, is not reachable from an IsRecognized error branch (the exhausted-loop fact comes from the phi of the success flag, so the recognised branch cannot lead there), and only with both cache lookups negative; " +
+			"a rejecting return is reachable only with allowList.Contains=false; negativeResultCache.Add is reached only after the application loop ran to exhaustion, is not reachable from an IsRecognized error branch (the exhausted-loop fact comes from the phi of the success flag, so the recognised branch cannot lead there), and only with both cache lookups negative; " +
 			"positiveResultCache.Add only under IsRecognized=true ∧ err=nil; all cache operations use the peer key's String() as key; nothing else in pkg/firewall adds to a cache.",
 		NotDecided: "cache expiry timing (keep-common TimeCache), and the 'if' direction for peers recognised by an application that is asked after an erroring one.",
 		Fn: func(r *Run) {
@@ -17,6 +17,10 @@ func init() {
 				return
 			}
 			r.Rule("C21.admit", "return nil ⇐ allowlisted ∨ positive cache hit ∨ (IsRecognized ∧ err=nil)", 3)
+			r.Rule("C21.allowlisted", "every rejecting (non-nil) return is dominated by allowList.Contains = false: an allowlisted peer is never rejected, whatever the applications answer", 3)
+			for _, p := range ReturnPaths(fn, 0, notNilConst) {
+				r.Check("C21.allowlisted", FnName(fn)+"#return-error", p.Ret.Pos(), p.Facts, falseOf(`pkg/firewall\.AllowList\.Contains`))
+			}
 			r.Rule("C21.negative", "negative cache Add only after an exhausted, error-free, unrecognised loop", 2)
 			r.Rule("C21.positive", "positive cache Add only under IsRecognized ∧ err=nil", 1)
 			r.Rule("C21.keys", "cache Has/Add keyed by the remote peer key's String()", 4)
